@@ -96,7 +96,7 @@ func C14(r *eng.Run) {
 	if !CodecSanity(r) {
 		return
 	}
-	shapes := Shapes(r.Thorough())
+	shapes := Shapes(true)
 	t0 := time.Now()
 	var exps []int
 	for q := ref.MinQ; q <= ref.MaxQ; q++ {
